@@ -144,7 +144,7 @@ def check_capture_footprint(ctx, prog, I):
                 if b is not want:
                     # accept the guarded form ite(flag, F & !T, F)
                     alt = B.bite(I.nonzero_bit(tr), want, B.lit((name, j)))
-                    if b is not alt and not (B.deps(b) == B.deps(want) and (((('#', id(tr.bits[j])), False) in B.must(b)) or True) and _same_removal(b, name, j, tr)):
+                    if b is not alt and not (B.deps(b) == B.deps(want) and (((('#', tr.bits[j].n), False) in B.must(b)) or True) and _same_removal(b, name, j, tr)):
                         bad = 'trap bit %s is not "old bit and not trapped_piece_bits()[%s]"' % (G.name(j), G.name(j))
                         break
         ctx.ob('removal on board %s: non-trap bits copied, trap bits and-ed with the complement of the reported capture' % name,
@@ -156,7 +156,7 @@ def check_capture_footprint(ctx, prog, I):
 def _same_removal(b, name, j, tr):
     """b must require F[j] and must be forced to 0 by trapped[j]."""
     m = B.must(b)
-    return ((name, j), True) in m and (((('#', id(tr.bits[j])), False) in m) or B.band(b, tr.bits[j]) is C0)
+    return ((name, j), True) in m and (((('#', tr.bits[j].n), False) in m) or B.band(b, tr.bits[j]) is C0)
 
 
 def check_take_action_composition(ctx, prog, I, mvs):
